@@ -103,6 +103,24 @@ class DeathSuite(cc.ChanSuite):
             ops += body
             yield {"pieces": cc.timed(pieces), "accept": [], "ops": ops, "meta": {"reader": rd}}
         yield from self.gen_nonlifo(tier, rng)
+        yield from self.gen_siblings(tier, rng)
+
+    def gen_siblings(self, tier, rng):
+        """sibling contexts: a long string is watched while something is read, its context ends, then a short string
+        is registered (the number of registrations is the same again) and occurs followed by more than its own length of
+        data in one piece"""
+        for _ in range(1500 if tier == "thorough" else 300):
+            long_s = rng.choice([b"Kernel panic - not syncing", b"aaaaaaaaaaaa", b"ERROR: long message"])
+            short = rng.choice([b"ab", b"yy", b"Oops"])
+            first = cc.rand_bytes(rng, rng.randint(1, 6), b"xz\n ")
+            pre = cc.rand_bytes(rng, rng.randint(0, 5), b"xz\n ")
+            post = cc.rand_bytes(rng, rng.randint(len(short) + 1, 3 * len(short) + 4), b"xz\n ")
+            second = pre + short + post
+            rd = rng.choice(READERS)
+            ops = [["push_death", {"lit": long_s.hex()}, 0], ["read", len(first), None], ["pop"],
+                   ["push_death", {"lit": short.hex()}, 1]] + reader_ops(rd, len(second))
+            pieces = [first] + ([second] if rng.random() < 0.6 else cc.rand_split(rng, second, 3))
+            yield {"pieces": cc.timed(pieces), "accept": [], "ops": ops, "meta": {"reader": rd, "kind": "siblings"}}
 
     def gen_nonlifo(self, tier, rng):
         """registrations that are not undone in LIFO order: add_death_string (permanent) inside a context,
